@@ -225,6 +225,21 @@ func c07MutateParents(t *rapid.T, old []string) ([]string, string) {
 	return ps, kind
 }
 
+// c07MultiParentItems lists the items that name at least two different parents.
+func c07MultiParentItems(m *c07Model) []string {
+	var out []string
+	for _, id := range c07SortedKeys(m.items) {
+		ps := m.items[id].parents
+		for _, p := range ps {
+			if p != ps[0] {
+				out = append(out, id)
+				break
+			}
+		}
+	}
+	return out
+}
+
 func c07SameMultiset(a, b []string) bool {
 	if len(a) != len(b) {
 		return false
@@ -585,6 +600,9 @@ func TestVerifC07LabelIndexes(t *testing.T) {
 					ops = append(ops, "-")
 					return
 				}
+				if multi := c07MultiParentItems(m); len(multi) > 0 && rapid.IntRange(0, 3).Draw(t, "preferMultiParent") != 0 {
+					ids = multi
+				}
 				id := rapid.SampledFrom(ids).Draw(t, "item")
 				it := m.items[id]
 				effBefore := m.effective(id)
@@ -897,6 +915,9 @@ func TestVerifC07SelectorIndexMatching(t *testing.T) {
 				if len(ids) == 0 {
 					ops = append(ops, "-")
 					return
+				}
+				if multi := c07MultiParentItems(m); len(multi) > 0 && rapid.IntRange(0, 3).Draw(t, "preferMultiParent") != 0 {
+					ids = multi
 				}
 				id := rapid.SampledFrom(ids).Draw(t, "item")
 				it := m.items[id]
